@@ -504,8 +504,11 @@ def mk_bin(op, a, b):
         cv = c.c
         if cv > 0:
             z = 1 << 62
-            for _, k in x.t:
-                z = min(z, k & (-k)) if k else z
+            for a_, k in x.t:
+                low = (k & (-k)) if k else z
+                if a_[0] == "alignup":
+                    low *= a_[2]  # AlignUp(.., A) has log2(A) zero low bits
+                z = min(z, low)
             if x.c:
                 z = min(z, x.c & (-x.c))
             if cv < z:
